@@ -48,6 +48,12 @@ E1 = {
 }
 
 # per-harness description of what is symbolic and what bounds it (goes into the evidence file)
+# every STEP lemma assumes INV; its preservation (c05_step4_t*) is therefore part of each STEP-based property's own check
+INV_LEMMAS = [D + h for h in tags('c05_step4')]
+for _p in ('C01', 'C02', 'C08', 'C11', 'C14', 'C15', 'C17'):
+    for _t in list(E1[_p]):
+        E1[_p][_t] = E1[_p][_t] + [h for h in INV_LEMMAS if h not in E1[_p][_t]]
+
 E1_BOUNDS = {
     'decstep': 'ONE call from an arbitrary decoder state (all state fields + ArrayBuf<N> contents symbolic, constrained by INV of DESIGN.md 8.1), arbitrary byte; loops unwound 10 with unwinding assertions; raw_msg_len <= 2^62',
     'encstep': 'ONE Encoder::next from any (real state, reference state) pair in the simulation relation, arbitrary payload item; buffer encoder: all payloads of <= 4/5 symbolic bytes into ArrayBuf<C>',
@@ -91,6 +97,7 @@ def shapes(tier, heavy=False):
     out.append(('S3', START + S(2) + START + S(2) + END + S(3), 'restart inside a frame: start, 2 symbolic, start, 2 symbolic, end marker, 3 symbolic'))
     out.append(('S4', S(2) + START + S(2) + END + S(3), '2 symbolic noise bytes, frame with 2 symbolic data bytes and symbolic pad/checksum'))
     out.append(('S5', START + S(1) + [0x1b] * 3 + S(2) + END + S(3), 'data ending in a 0x1b run before symbolic bytes and the end sequence (re-alignment region)'))
+    out.append(('S8', [0x1b] * 4 + [0x01] + S(2) + START + S(1) + END + S(3), 'noise = partial start sequence 1b1b1b1b 01 + 2 symbolic bytes, then a frame with 1 symbolic data byte and symbolic pad/checksum'))
     if not q:
         out.append(('S6', START + S(3) + [0x1b] * 4 + S(4) + S(4), 'escape sequence with fully symbolic payload after 3 symbolic data bytes'))
         out.append(('S7', S(3) + START + S(1) + START + S(1) + END + S(3) + S(2), 'noise, frame, restart, trailing bytes'))
@@ -145,6 +152,9 @@ def e2_checks(pid, tier, seed):
     if pid == 'C01':
         for n in (range(0, 6) if q else range(0, 9)):
             out.append(spec('roundtrip_%d' % n, 'chk_roundtrip_%d' % n, S(n), 'payload of %d fully symbolic bytes; both encoders x 7 decoder front-ends; ArrayBuf capacity exactly %d' % (n, n), must_cover=[1]))
+        R = [0x1b]
+        out.append(spec('roundtrip_runs_4s4s', 'chk_roundtrip_10', R * 4 + S(1) + R * 4 + S(1), 'payload of 10 bytes: two runs of four 0x1b, each followed by a symbolic byte (several literal escapes, runs of 9)', must_cover=[1]))
+        out.append(spec('roundtrip_runs_s8s', 'chk_roundtrip_10', S(1) + R * 8 + S(1), 'payload of 10 bytes: a run of eight 0x1b between two symbolic bytes', must_cover=[1]))
         longs = ((255, (253, 254)), (256, (254, 255)), (257, (255, 256)), (260, (258, 259))) if q else ((255, (0, 253, 254)), (256, (0, 254, 255)), (257, (1, 255, 256)), (260, (0, 3, 258, 259)), (1023, (1021, 1022)))
         for L, pos in longs:
             inp = [0x55] * L
@@ -169,13 +179,20 @@ def e2_checks(pid, tier, seed):
     elif pid == 'C07':
         for n in (range(0, 6) if q else range(0, 9)):
             out.append(spec('encode_%d' % n, 'chk_encode', S(n), 'payload of %d fully symbolic bytes: encode::<Vec>, encode_streaming (+3 extra next) and encode::<ArrayBuf<C>> for 21 capacities vs the reference encoder' % n, must_cover=[7]))
+        # long runs of 0x1b (more than one inserted escape per run), symbolic bytes inside / around the runs
+        R = [0x1b]
+        runs = [('runs_4s4s', R * 4 + S(1) + R * 4 + S(1)), ('runs_s8s', S(1) + R * 8 + S(1)), ('runs_3s3s3', R * 3 + S(1) + R * 3 + S(1) + R * 3)]
+        if not q:
+            runs += [('runs_12', R * 5 + S(1) + R * 6), ('runs_s7s', S(2) + R * 7 + S(1))]
+        for nm, cells in runs:
+            out.append(spec('encode_' + nm, 'chk_encode', cells, 'payload of %d bytes: concrete runs of 0x1b with %d symbolic bytes inside/around them (several inserted escapes per run)' % (len(cells), sum(1 for c in cells if c == 'S')), must_cover=[7]))
         for L in ((256, 259) if q else (255, 256, 257, 259, 1024)):
             inp = [0x55] * L
             inp[L - 1] = 'S'; inp[L - 2] = 'S'
             out.append(spec('encode_long_%d' % L, 'chk_roundtrip_long', inp, 'payload of %d bytes with the last two symbolic: both encoders vs the reference encoder (8-bit pad counter wrap)' % L, must_cover=[1]))
     elif pid == 'C16':
         for L in (range(0, 5) if q else range(0, 6)):
-            out.append(spec('capacity_%d' % L, 'chk_capacity_%d' % L, S(L), 'payload of %d symbolic bytes: capacity %d delivers, capacity %d reports one OutOfMemory and delivers the next frame' % (L, L, max(L - 1, 0)), must_cover=[16] if L else []))
+            out.append(spec('capacity_%d' % L, 'chk_capacity_%d' % L, S(L), 'payload of %d symbolic bytes: capacity %d delivers; EVERY capacity 0..%d reports exactly one OutOfMemory, never data, and delivers the next frame' % (L, L, max(L - 1, 0)), must_cover=[16] if L else []))
         for L in ((8192, 8193)):
             inp = [0x42] * L
             inp[L - 1] = 'S'
